@@ -76,7 +76,19 @@ C07e == { Scn("C07a", F(<<L("a", "T2", "")>>, <<>>), ins, <<F(<<L("", "T1", "")>
             ins \in UNION {PermSeqs(S) : S \in {{L("a", "T1", "s"), L("b", "T1", "")}, {L("a", "T1", "s"), L("b", "T1", "t")},
                                                  {L("a", "T1", "s"), L("b", "T1", ""), L("c", "T1", "s")}}},
             o \in C07ConvOut }
-C07Family == C07a \cup C07b \cup C07c \cup C07d \cup C07e
+\* a two-input converter (type-only T1, b:T3) whose second input must itself be converted from T1 by another
+\* type-only converter: the nested conversion takes the value named b, the outer one still the value named a
+C07X(o) == F(<<L("", "T1", ""), L("b", "T3", "")>>, <<o>>)
+C07Y == F(<<L("", "T1", "")>>, <<L("", "T3", "")>>)
+C07f == { Scn("C07f", F(<<L("a", "T2", "")>>, <<>>), ins, cs) :
+            ins \in UNION {PermSeqs(S) : S \in {{L("a", "T1", ""), L("b", "T1", "")}, {L("a", "T1", ""), L("b", "T1", ""), L("c", "T1", "")}}},
+            cs \in UNION {{<<C07X(o), C07Y>>, <<C07Y, C07X(o)>>} : o \in C07ConvOut} }
+\* clause 2 with a name-using converter that needs further, directly supplied inputs (1 or 2 of them)
+C07Extra == <<L("p", "T3", ""), L("q", "T4", "")>>
+C07g == { Scn("C07g", F(<<L("a", "T2", "")>>, <<>>), ins, cs) :
+            ins \in UNION {PermSeqs(S) : S \in {{L("a", "T1", ""), L("p", "T3", ""), L("q", "T4", "")}, {L("a", "T1", ""), L("b", "T1", ""), L("p", "T3", ""), L("q", "T4", "")}}},
+            cs \in UNION {PermSeqs({F(<<L("a", "T1", "")>> \o SubSeq(C07Extra, 1, n), <<L("", "T2", "")>>), F(<<L("", "T1", "")>>, <<L("", "T2", "")>>)}) : n \in 1..2} }
+C07Family == C07a \cup C07b \cup C07c \cup C07d \cup C07e \cup C07f \cup C07g
 
 -----------------------------------------------------------------------------
 \* single-input converter digraphs over three types: every subset of the six type-only converters
@@ -148,6 +160,16 @@ MatchFamily == { Scn("match", F(<<rq>>, <<>>), <<pv>>, <<>>) : rq \in MatchU, pv
                \cup { Scn("match", F(<<rq>>, <<>>), <<L("", "T2", "")>>, <<F(<<L("", "T2", "")>>, <<pv>>)>>) : rq \in MatchU, pv \in MatchU }
 
 -----------------------------------------------------------------------------
+\* result lists in which a named and a type-only result share their type (and subtype): every consumer
+\* must receive the result that was declared for it, never its same-typed sibling
+OutSets == {{L("a", "T1", ""), L("", "T1", "")}, {L("a", "T1", "s"), L("", "T1", "s")}, {L("a", "T1", "s"), L("", "T1", "")},
+            {L("a", "T1", ""), L("", "T1", ""), L("b", "T2", "")}, {L("a", "T1", ""), L("b", "T1", "")}}
+OutTargets == {<<L("b", "T1", "")>>, <<L("", "T1", "")>>, <<L("a", "T1", "")>>, <<L("a", "T1", ""), L("b", "T1", "")>>,
+               <<L("b", "T1", ""), L("", "T1", "")>>, <<L("c", "T1", "s")>>}
+OutFamily == { Scn("out", F(t, <<>>), <<>>, <<F(<<>>, os)>>) : t \in OutTargets, os \in UNION {PermSeqs(S) : S \in OutSets} }
+             \cup { Scn("out", F(t, <<>>), <<L("", "T3", "")>>, <<F(<<L("", "T3", "")>>, os)>>) : t \in OutTargets, os \in UNION {PermSeqs(S) : S \in OutSets} }
+
+-----------------------------------------------------------------------------
 \* C16: option processing.  Exact-key targets; every arrangement of the supplied values in which keys
 \* repeat (the last occurrence must win), every default/call split, nil values, a nil option.
 \* (name casing is varied by the harness at the API and in the struct tags)
@@ -174,7 +196,8 @@ FamilyScenarios == CASE Family = "C03" -> C03Family
                      [] Family = "C06" -> CycleFamily \cup C04Family
                      [] Family = "C04" -> C04Family
                      [] Family = "C13" -> CycleFamily \cup MatchFamily
-                     [] Family = "C01" -> C03Family \cup CycleFamily \cup MatchFamily
+                     [] Family = "C01" -> C03Family \cup CycleFamily \cup MatchFamily \cup OutFamily
+                     [] Family = "C15" -> OutFamily \cup MatchFamily
                      [] Family = "C16" -> {x \in C16Family : x.ndef <= Len(x.inputs)}
                      [] OTHER -> {}
 
